@@ -1097,6 +1097,23 @@ func (env *Env) evalCall(x *ECall) (Val, error) {
 			return Val{}, err
 		}
 		return Val{Typ: boolT, Ts: []T{Eq(v.Ts[0], vc.E.TypeID(t))}}, nil
+	case "sameArray":
+		// sameArray(a, b): the two slices share their backing array
+		if len(x.Args) != 2 {
+			return Val{}, fmt.Errorf("sameArray(a, b)")
+		}
+		a, err := env.eval(x.Args[0])
+		if err != nil {
+			return Val{}, err
+		}
+		b, err := env.eval(x.Args[1])
+		if err != nil {
+			return Val{}, err
+		}
+		if len(a.Ts) != 4 || len(b.Ts) != 4 {
+			return Val{}, fmt.Errorf("sameArray: slices expected")
+		}
+		return Val{Typ: boolT, Ts: []T{Eq(a.Ts[0], b.Ts[0])}}, nil
 	case "aload":
 		// aload(x.f): the interface value held by the sync/atomic.Value field f (modelled as a plain cell)
 		a, err := env.evalLoc(x.Args[0])
